@@ -1,5 +1,5 @@
 # C36 - git identifier mappings are inverse pairs: branch/tag names <-> refs, git SHAs <-> revision ids (proved);
-# file-id escaping, path <-> file id and URL conversion are covered by the bounded stand-in (bounded/C36.py).
+# path <-> file id (proved given the escaping); file-id escaping and URL conversion (Rust) are covered by the bounded stand-in (bounded/C36.py).
 Enc8 = ufunc("Enc8", STR, BYTES)      # str.encode("utf-8")
 Dec8 = ufunc("Dec8", BYTES, STR)      # bytes.decode("utf-8")
 assume_note("utf-8: Dec8(Enc8(s)) == s for every str s (used in the round-trip lemmas)")
@@ -86,6 +86,42 @@ lemma("git_shas_round_trip", [("cls_", ANY), ("sha", BYTES), ("revid", BYTES), (
       lambda cls_, sha, revid, back: And(startswith(revid, attr(cls_, "revid_prefix") + lift(b":")), back == sha),
       note="revision_id_bzr_to_foreign(revision_id_foreign_to_bzr(sha)) == sha for every non-zero sha")
 
-undecided("escape_file_id/unescape_file_id, generate_file_id/parse_file_id and git_url_to_bzr_url/bzr_url_to_git_url (Rust): "
+# ---- path <-> file id (the escaping itself is Rust: assumed inverse, cross-checked exhaustively by the bounded part)
+EncP = ufunc("EncP", STR, BYTES)      # encode_git_path: utf-8 with surrogateescape
+DecP = ufunc("DecP", BYTES, STR)      # decode_git_path
+Esc = ufunc("Esc", BYTES, BYTES)      # escape_file_id (crates/git)
+Unesc = ufunc("Unesc", BYTES, BYTES)  # unescape_file_id
+assume_note("git paths: DecP(EncP(p)) == p for every str a git tree hands out and EncP(DecP(b)) == b for every byte string "
+            "(utf-8 with surrogateescape); Unesc(Esc(b)) == b (Rust; bounded part); FILE_ID_PREFIX is b'git:' and ROOT_ID b'TREE_ROOT'")
+assumed("encode_git_path", pure=True, no_raise=True, returns=lambda c: EncP(c.args[0]))
+assumed("decode_git_path", pure=True, no_raise=True, returns=lambda c: DecP(c.args[0]))
+assumed("escape_file_id", pure=True, no_raise=True, returns=lambda c: Esc(c.args[0]))
+assumed("unescape_file_id", pure=True, no_raise=True, returns=lambda c: Unesc(c.args[0]))
+const("ROOT_ID", b"TREE_ROOT")
+const("FILE_ID_PREFIX", b"git:")
+FP, ROOT = lift(b"git:"), lift(b"TREE_ROOT")
+
+
+def file_id_of(b):
+    return If(b == lift(b""), ROOT, FP + Esc(b))
+
+
+target(M + "generate_file_id", params=dict(path=STR), result=BYTES, variant="str",
+       ensures={"spec": lambda c: c.result == file_id_of(EncP(c.old.path))}, raises={}, canary=lambda c: c.result == ROOT)
+target(M + "generate_file_id", params=dict(path=BYTES), result=BYTES, variant="bytes",
+       ensures={"spec": lambda c: c.result == file_id_of(c.old.path)}, raises={}, canary=lambda c: c.result == ROOT, skip_mutants=True)
+target(M + "parse_file_id", params=dict(file_id=BYTES), result=STR,
+       ensures={"spec": lambda c: If(c.old.file_id == ROOT, c.result == lift(""),
+                                     And(startswith(c.old.file_id, FP), c.result == DecP(Unesc(c.old.file_id[4:Len(c.old.file_id)]))))},
+       raises={"ValueError": lambda c: And(c.old.file_id != ROOT, Not(startswith(c.old.file_id, FP)))},
+       canary=lambda c: Len(c.result) == 0)
+lemma("paths_round_trip_through_file_ids", [("p", STR), ("fid", BYTES), ("back", STR)],
+      lambda p, fid, back: [DecP(EncP(p)) == p, Unesc(Esc(EncP(p))) == EncP(p), DecP(lift(b"")) == lift(""),
+                            fid == file_id_of(EncP(p)),
+                            If(fid == ROOT, back == lift(""), Implies(startswith(fid, FP), back == DecP(Unesc(fid[4:Len(fid)]))))],
+      lambda p, fid, back: And(Or(fid == ROOT, startswith(fid, FP)), back == p),
+      note="parse_file_id(generate_file_id(path)) == path (given the assumed inverse laws of the path codec and the Rust escaping)")
+
+undecided("escape_file_id/unescape_file_id and git_url_to_bzr_url/bzr_url_to_git_url (Rust): "
           "bounded stand-in only (bounded/C36.py), not proved")
 undecided("GitBranch.set_parent / _get_parent_location round trip (configuration store)")
